@@ -25,6 +25,7 @@ type SpecNode struct {
 }
 
 type Clause struct {
+	Optional bool // site clause that may match nothing
 	SiteKind string // site clause: requires, or maypanic (calls of this callee may panic in this function)
 	Local  bool // ensures clause not exported to callers
 	Kind   string // requires | ensures | invariant | assigns | nopanic | noreturn | pure | emits
@@ -88,7 +89,7 @@ func NewContractSet() *ContractSet {
 	return &ContractSet{ByKey: map[string]*Contract{}, Preds: map[string]*PredDecl{}, Defs: map[string]*SpecDef{}, GhostMaps: map[string]*GhostMap{}}
 }
 
-var clauseRe = regexp.MustCompile(`^(spawn\s+|onpanic\s+|local\s+|site\s+\S+\s+)?(requires|ensures|assigns|ghostset|nopanic|noreturn|pure|inline|trusted|maypanic|loop\s+\d+\s+invariant)(\[[A-Za-z0-9_, ]*\])?\s*(.*)$`)
+var clauseRe = regexp.MustCompile(`^(spawn\s+|onpanic\s+|local\s+|site\??\s+\S+\s+)?(requires|ensures|assigns|ghostset|nopanic|noreturn|pure|inline|trusted|maypanic|loop\s+\d+\s+invariant)(\[[A-Za-z0-9_, ]*\])?\s*(.*)$`)
 var labelRe = regexp.MustCompile(`^([A-Za-z_][A-Za-z0-9_.\-=<>+,]*):\s+(.*)$`)
 var headRe = regexp.MustCompile(`^(func|extern|functype|iface)\s+(.*)$`)
 
@@ -191,6 +192,9 @@ func (cs *ContractSet) parseFile(path string, pkgPath string) {
 			kind := m[2]
 			if strings.HasPrefix(m[1], "site") {
 				c.Callee = strings.Fields(m[1])[1]
+				// "site? <callee>": a site clause for accesses the function need not contain (it is not an
+				// error when nothing matches): lock discipline for reads that a later edit may add
+				c.Optional = strings.HasPrefix(m[1], "site?")
 			}
 			if strings.HasPrefix(kind, "loop") {
 				fmt.Sscanf(kind, "loop %d invariant", &c.Loop)
